@@ -216,11 +216,14 @@ func c06FreshCursor(c *Ctx) {
 	// creation: c.cursor = <result of (*kv.DB).Cursor(ctx)>
 	var creates []ssa.CallInstruction
 	var createStores []*ssa.Store
-	for _, st := range an.StoresToField(fn, curF) {
-		if ex, ok := an.Unwrap(st.Val).(*ssa.Extract); ok && ex.Index == 0 {
-			if cl, ok := ex.Tuple.(*ssa.Call); ok && an.CalleeIs(cl, kvPkg, "DB", "Cursor") {
-				creates = append(creates, cl)
-				createStores = append(createStores, st)
+	sc := c.Scope(fn)
+	for _, f := range sc.Funcs {
+		for _, st := range an.StoresToField(f, curF) {
+			if ex, ok := an.Unwrap(st.Val).(*ssa.Extract); ok && ex.Index == 0 {
+				if cl, ok := ex.Tuple.(*ssa.Call); ok && an.CalleeIs(cl, kvPkg, "DB", "Cursor") {
+					creates = append(creates, cl)
+					createStores = append(createStores, st)
+				}
 			}
 		}
 	}
@@ -229,7 +232,7 @@ func c06FreshCursor(c *Ctx) {
 		return
 	}
 	n := 0
-	for _, call := range an.Calls(fn) {
+	for _, call := range sc.Calls() {
 		m := calleeLabel(call)
 		if m != "Ceil" && m != "Min" && m != "Max" {
 			continue
@@ -241,7 +244,7 @@ func c06FreshCursor(c *Ctx) {
 		n++
 		good := false
 		for i, cr := range creates {
-			if ok, _ := an.SuccessDominates(cr, call); ok && an.InstrBefore(createStores[i], call) {
+			if ok, _ := sc.SuccessDominates(cr, call); ok && sc.Before(createStores[i], call) {
 				good = true
 			}
 		}
